@@ -27,7 +27,13 @@ theorem genlogic_can_backdate (b : BackdateIn) :
       && decide (b.oldDurability ≤ b.newDurability)) := by
   simp [can_backdate]
 
-/-- `Core.backdateCa` is `backdate_if_appropriate` of a cycle-free, `specify`-free program -/
+/-- `Core.backdateCa` is `backdate_if_appropriate` of a cycle-free, `specify`-free program.
+    (`plainBackdateIn` / `specBackdateIn` / `plainMemoIn` set `oldWasCycleParticipant := false`,
+    `oldMayBeProvisional := false`, `mayBeProvisional := false`: the engine models Core, Core3,
+    CoreAcc, CoreSpec have no cycles, hence no such memos; all equalities with them hold under
+    these built-in hypotheses.  What the conditions do for provisional memos / former cycle
+    participants is stated in closed form: `genlogic_provisional_guards`,
+    `genlogic_verified_provisional_is_changed`, `genlogic_participant_changed_at_monotone`.) -/
 theorem genlogic_core_backdate (old : Option Core.Memo) (v : Nat) (f : Core.Frame) :
     Core.backdateCa old v f =
       match old with
@@ -38,7 +44,7 @@ theorem genlogic_core_backdate (old : Option Core.Memo) (v : Nat) (f : Core.Fram
   | none => rfl
   | some o =>
     simp only [Core.backdateCa, backdate_if_appropriate, source_changed, backdated, can_backdate,
-      backdate_to, plainBackdateIn]
+      backdate_to, participant_keeps_stamp, participant_stamp, plainBackdateIn]
     by_cases h1 : o.value = v <;> by_cases h2 : o.dur ≤ f.dur <;> simp [h1, h2]
 
 example : Core.backdateCa (some ⟨5, 2, 2, 1, 2, []⟩) 5 ⟨3, 1, []⟩ = 2 := by decide
@@ -53,7 +59,7 @@ theorem genlogic_coreacc_backdate (old : Option CoreAcc.Memo) (v : Nat) (f : Cor
   | none => rfl
   | some o =>
     simp only [CoreAcc.backdateCa, backdate_if_appropriate, source_changed, backdated, can_backdate,
-      backdate_to, plainBackdateIn]
+      backdate_to, participant_keeps_stamp, participant_stamp, plainBackdateIn]
     by_cases h1 : o.value = v <;> by_cases h2 : o.dur ≤ f.dur <;> simp [h1, h2]
 
 /-- `Core3.canBackdate` is the generated `backdated`; `values_equal` of a `no_eq` function is
@@ -76,8 +82,41 @@ theorem genlogic_core3_backdate (kd : Core3.Kind) (old : Option Core3.Memo) (v :
   | none => rfl
   | some o =>
     simp only [Core3.backdateCa, genlogic_core3_canBackdate, backdate_if_appropriate, source_changed,
-      backdate_to, plainBackdateIn]
+      backdate_to, participant_keeps_stamp, participant_stamp, plainBackdateIn]
     split <;> simp_all
+
+/-- closed form of the branch added by "keep changed_at of former cycle participants monotone":
+    taken when the value is NOT backdated, the old memo took part in a cycle and its stamp is
+    later than the new one; the old stamp is kept -/
+theorem genlogic_participant_keeps_stamp (b : BackdateIn) :
+    participant_keeps_stamp b = (b.oldWasCycleParticipant && decide (b.newChangedAt < b.oldChangedAt)) ∧
+    participant_stamp b = b.oldChangedAt := by
+  simp [participant_keeps_stamp, participant_stamp]
+
+/-- the `changed_at` of a former cycle participant never moves backwards: whenever the old memo
+    took part in a cycle (and this is not the `Assigned → computed` case, which stamps with the
+    current revision), the new memo's `changed_at` is at least the old one — backdated or not -/
+theorem genlogic_participant_changed_at_monotone (b : BackdateIn)
+    (hp : b.oldWasCycleParticipant = true) (hs : source_changed b = false) :
+    b.oldChangedAt ≤ (backdate_if_appropriate b).1 := by
+  simp only [backdate_if_appropriate, hs, participant_keeps_stamp, participant_stamp, backdate_to, hp]
+  by_cases h1 : backdated b = true
+  · simp [h1]
+  · by_cases h2 : b.oldChangedAt > b.newChangedAt
+    · simp [h1, h2]
+    · simp [h1, h2]; omega
+
+/-- … and a memo that never took part in a cycle is stamped exactly as before that branch existed -/
+theorem genlogic_nonparticipant_unaffected (b : BackdateIn) (hp : b.oldWasCycleParticipant = false) :
+    backdate_if_appropriate b =
+      if source_changed b then
+        ((if backdated b then source_changed_same_value b else source_changed_other_value b), false)
+      else if backdated b then (backdate_to b, backdate_violation b)
+      else (b.newChangedAt, false) := by
+  simp [backdate_if_appropriate, participant_keeps_stamp, hp]
+
+example : (backdate_if_appropriate { plainBackdateIn 0 0 false 7 3 with oldWasCycleParticipant := true }).1 = 7 ∧
+    (backdate_if_appropriate (plainBackdateIn 0 0 false 7 3)).1 = 3 := by decide
 
 /-- `CoreSpec.backdate` (new `changed_at`, backdate violation) is the generated
     `backdate_if_appropriate`, including the `Assigned → computed` branch -/
@@ -92,7 +131,7 @@ theorem genlogic_corespec_backdate (old : Option CoreSpec.Memo) (newAssigned : B
   | some o =>
     simp only [CoreSpec.backdate, backdate_if_appropriate, source_changed, backdated, can_backdate,
       backdate_to, backdate_violation, source_changed_same_value, source_changed_other_value,
-      specBackdateIn]
+      participant_keeps_stamp, participant_stamp, specBackdateIn]
     cases newAssigned <;> by_cases ho : o.origin.isSome = true <;>
       by_cases h1 : o.dur ≤ fdur <;> by_cases h2 : o.value = v <;> by_cases h3 : o.hgen = hg <;>
       simp [ho, h1, h2, h3]
@@ -159,9 +198,17 @@ theorem genlogic_provisional_guards (m : MemoIn) (u rev : Nat) :
     cold_may_reexecute m = !m.mayBeProvisional ∧
     cold_evicted m = !m.hasValue ∧
     hot_changed m rev = decide (m.changedAt > rev) ∧
-    cold_verified_changed m rev = decide (m.changedAt > rev) := by
+    cold_verified_changed m rev = (decide (m.changedAt > rev) || m.mayBeProvisional) := by
   simp [hot_applies, fetch_hot_applies, verify_shallow_applies, deep_is_provisional,
     cold_may_reexecute, cold_evicted, hot_changed, cold_verified_changed]
+
+/-- a memo accepted by `verify_memo` (possibly a provisional one that `validate_same_iteration`
+    let through) is reported as changed whenever it is provisional, whatever its `changed_at`;
+    for a final memo the verdict is `changed_at > revision` -/
+theorem genlogic_verified_provisional_is_changed (m : MemoIn) (rev : Nat) :
+    (m.mayBeProvisional = true → cold_verified_changed m rev = true) ∧
+    (m.mayBeProvisional = false → cold_verified_changed m rev = decide (m.changedAt > rev)) := by
+  constructor <;> intro h <;> simp [cold_verified_changed, h]
 
 theorem genlogic_panic_participant (m : MemoIn) (p : Bool) :
     deep_panic_participant m p = (p && m.wasCycleParticipant) := by
